@@ -140,6 +140,10 @@ def run(ctx):
                         if min(lhs, rhs) > 1e-250:
                             eq("optimum-threshold-solves-density-equation", lhs, rhs, tol=50000)
                         ev("inside", "threshold-inside-[mu0,mu1]", lo=sci(mu0 + 100), x=sci(th + 100), hi=sci(mu0 + mu + 100))
+                        # the same receiver expressed in other units (volts -> 0.1 mV, uV, kV): variances of 1e-9 V^2 and below are ordinary
+                        for al_ in (1e-4, 1e-6, 1e3):
+                            th_a = float(ut.optimum_threshold(al_ * mu0, al_ * (mu0 + mu), (al_ * s0) ** 2, (al_ * s1) ** 2, mod, MM))
+                            eq("threshold-covariant-under-a-change-of-units", (th_a / al_ - mu0) / mu + 1, (th - mu0) / mu + 1, tol=2000)
         ctx.case(("two-level", M, s0 == s1, mu / max(s0, s1) > 8), {"mu": mu, "s0": s0, "s1": s1, "M": M})
     # ---- receiver model
     for it in range(600 if T else 40):
@@ -197,19 +201,22 @@ def run(ctx):
                 events.append({"kind": "mono", "name": "BER-decreases-with-received-power", "seq": [sci(x + (1e-3 if mod == "ppm" else 0)) for x in seq], "slack": 3000 if mod == "ppm" else 2})
                 meta.append(("mono", "power"))
         ctx.case(("receiver", mod, Mm, amp, ER == np.inf), {"P_avg": P, "mod": mod, "M": M, "ER": ER, "amplify": amp})
-    # shot-noise dominated receivers (cold, high load resistance): the mutual-consistency equality where the shot term decides the BER
+    # shot-noise dominated receivers (cold, high load resistance): the mutual-consistency equality where the shot term decides the BER;
+    # with an electrical noise figure the reference variances are the statement's own (Fn on the thermal term only, as in PD)
     for it in range(6 if T else 3):
         Tk, RL, BWel, r_ = [1.0, 4.0, 2.0][it % 3], [1e4, 3e3, 1e4][it % 3], [1e10, 5e9, 2e10][it % 3], 1.0
         for P in range(-62, -24, 2):
             for mod, M in (("ook", 2), ("ppm", 4)):
-                mu_t, _ = ut.average_voltages(P, mod, M, np.inf, False, 1550e-9, 0.0, 5.0, 1e12, r_, RL)
-                S_t = ut.noise_variances(P, mod, M, np.inf, False, 1550e-9, 0.0, 5.0, 1e12, r_, BWel, RL, Tk, 0.0)
-                d, s0_, s1_ = float(mu_t[1] - mu_t[0]), float(S_t[0]) ** 0.5, float(S_t[1]) ** 0.5
-                ref = float(ook.theory_BER(d, s0_, s1_)) if mod == "ook" else float(ppm.theory_BER(d, s0_, s1_, M, "hard"))
-                if 1e-8 < ref < 1e-2:
-                    got = float(ut.theory_BER(P, mod, M, "hard" if mod == "ppm" else None, ER=np.inf, amplify=False, r=r_, BW_el=BWel, R_L=RL, T=Tk, NF_el=0.0))
-                    eq("utils.theory_BER=error-integral-on-model-levels-and-variances", got, ref, tol=6000000)
-                    ctx.case(("receiver-shot-dominated", mod, it % 3), {"P_avg": P, "T": Tk, "R_L": RL, "shot/thermal variance": float(S_t[1] / max(S_t[0], 1e-300))})
+                for NFel in (0.0, 6.0):
+                    mu_t, _ = ut.average_voltages(P, mod, M, np.inf, False, 1550e-9, 0.0, 5.0, 1e12, r_, RL)
+                    vals = {"kB": KB, "T": Tk, "Fn": 10 ** (NFel / 10), "B": BWel, "R": RL, "e": QE}
+                    S_t = [evalmono(monos["thermal_V2"], vals) + evalmono(monos["shot_V2"], {**vals, "mu": float(mu_t[i])}) for i in (0, 1)]
+                    d, s0_, s1_ = float(mu_t[1] - mu_t[0]), float(S_t[0]) ** 0.5, float(S_t[1]) ** 0.5
+                    ref = float(ook.theory_BER(d, s0_, s1_)) if mod == "ook" else float(ppm.theory_BER(d, s0_, s1_, M, "hard"))
+                    if 1e-8 < ref < 1e-2:
+                        got = float(ut.theory_BER(P, mod, M, "hard" if mod == "ppm" else None, ER=np.inf, amplify=False, r=r_, BW_el=BWel, R_L=RL, T=Tk, NF_el=NFel))
+                        eq("utils.theory_BER=error-integral-on-model-levels-and-variances", got, ref, tol=6000000)
+                        ctx.case(("receiver-shot-dominated", mod, it % 3, NFel > 0), {"P_avg": P, "T": Tk, "R_L": RL, "NF_el": NFel, "shot/thermal variance": float(S_t[1] / max(S_t[0], 1e-300))})
     # the statement puts the electrical noise figure on the thermal term only (as PD does): NF_el != 0
     for it in range(6):
         P, RL, Tk, BWel, NFel = -30.0 + it, 50.0, 300.0, 5e9, 3.0 + it
